@@ -9,6 +9,7 @@ import SeqVerif.Proofs.C03FetchProofs
 import SeqVerif.Proofs.C03GroupProofs
 import SeqVerif.Proofs.C03TokenTableProofs
 import SeqVerif.Model.C03DocsCache
+import SeqVerif.Proofs.C03LoaderProofs
 import SeqVerif.Extracted.C03
 /-!
 # C03 - answers do not depend on the fraction form (active = sealed = reloaded = any cache)
@@ -318,6 +319,25 @@ above 4 GiB the second block would be answered from the first one's cache entry)
 theorem c03_docs_cache_key_collides_beyond_4GiB :
     docsCacheKey (4294967296 + 64) = docsCacheKey 64 ∧ (4294967296 + 64 ≠ 64) := docsCacheKey_collides
 
+/-- **the loader recovers what was written, for every block count** (`Loader.Load`: `skipTokens`, `loadIDs`,
+`loadLIDsBlocksTable`).  The section loops probe the registry until the empty separator header, so for an index file
+with any token / token-table blocks, ANY number of ID blocks - every `IDsTotal`, in particular exact multiples of
+`IDsPerBlock` where the last ID block is full - and any number of LID blocks, the loaded `MinBlockIDs`, the start of
+the ID section, the start of the LID section and the LID table are exactly the written ones -/
+theorem c03_loader_tables_eq_written (info pos : Hdr) (toks tab : List Hdr) (ids : List (ID × Nat × Nat × Nat))
+    (lids : List (Block × Nat)) (htoks : ∀ h, h ∈ toks → h.len ≠ 0) (htab : ∀ h, h ∈ tab → h.len ≠ 0)
+    (hids : ∀ b, b ∈ ids → b.2.1 ≠ 0) (hlids : ∀ b, b ∈ lids → b.2 ≠ 0)
+    (htid : ∀ b, b ∈ lids → b.1.minTID < 4294967296 ∧ b.1.maxTID < 4294967296) :
+    loadTables ([info] ++ toks ++ sepHdr :: (tab ++ sepHdr :: (pos :: (idsSection ids ++ lidsSection lids)))) =
+      some { idsStart := toks.length + tab.length + 4, minBlockIDs := ids.map (·.1),
+             lidsStart := toks.length + tab.length + 4 + 3 * ids.length + 1,
+             lids := lids.map fun b => (b.1.minTID, b.1.maxTID, b.1.isContinued) } :=
+  loadTables_spec info pos toks tab ids lids htoks htab hids hlids htid
+
+/-- the number of ID blocks is NOT `IDsTotal / IDsPerBlock + 1` (seeded change C03-m12 computed it that way): with a
+full last block the generator emits `IDsTotal / cap` blocks - e.g. 4 IDs, capacity 2 -/
+theorem c03_id_block_count_not_arithmetic : (chop 2 [(9, 1), (8, 1), (7, 1), (6, 1)]).length = 2 ∧ 4 / 2 + 1 = 3 := by decide
+
 /-! ## Obligations on facts re-extracted from /repo on every run -/
 
 open SV.Extracted.C03
@@ -386,5 +406,11 @@ theorem c03_x_lid_generator_owns_buffer :
 
 /-- the doc-block cache key in the source is the whole block offset truncated to uint32 (`docsCacheKey`) -/
 theorem c03_x_docs_cache_key : docsCacheKeyExpr = ["uint32(blockOffset)"] := by decide
+
+/-- every section loop of the sealed loader is an unconditional `for` that stops at the first empty header - no block
+count is computed from `IDsTotal` (the shape `skipSection` / `probeIDs` / `probeLIDs` model) -/
+theorem c03_x_loader_probes_until_separator :
+    loaderLoops = ["loadIDs: for{} break if header.Len() == 0", "skipTokens: for{} break if header.Len() == 0",
+      "skipTokens: for{} break if header.Len() == 0", "loadLIDsBlocksTable: for{} break if header.Len() == 0"] := by decide
 
 end SV.Props.C03
